@@ -4,7 +4,7 @@
 N="$1"
 cd /verif
 scripts/seeded_adopt.sh "$N" 2>&1 | tail -4 || exit 1
-git -C /repo worktree remove --force /tmp/mut/$N >/dev/null 2>&1
+[ -f /tmp/mut/$N-out/meta.json ] && git -C /repo worktree remove --force /tmp/mut/$N >/dev/null 2>&1
 D=$(ls -d seeded/*-$N 2>/dev/null | head -1)
 [ -n "$D" ] || { echo "not adopted"; exit 1; }
 scripts/seeded_run.sh "$D" quick 2>&1 | grep -v '^\[C[0-9]* .*\(generated\|built\)' | tail -7
